@@ -413,7 +413,7 @@ impl<'a, 'r, 'o, 'd, 'i, 'c> Subject<'a, 'r, 'o, 'd, 'i, 'c> {
         // This array is an important optimization that prevents searching down
         // the stack for openers we've previously searched for and know don't
         // exist, preventing exponential blowup on pathological cases.
-        let mut openers_bottom: [usize; 17] = [stack_bottom; 17];
+        let mut openers_bottom: [usize; 42] = [stack_bottom; 42];
 
         // This is traversing the stack from the top to the bottom, setting `closer` to
         // the delimiter directly above `stack_bottom`. In the case where we are processing
@@ -436,18 +436,22 @@ impl<'a, 'r, 'o, 'd, 'i, 'c> Subject<'a, 'r, 'o, 'd, 'i, 'c> {
 
                 let mut opener = c.prev.get();
                 let mut opener_found = false;
-                let mut mod_three_rule_invoked = false;
 
+                // One slot per delimiter character, `can_open` and `length % 3`
+                // of the closer: that is all the rule of three (below) looks at
+                // on the closer's side, so an opener skipped for this closer is
+                // skipped for every later closer of the same slot too.
                 let ix = match c.delim_char {
                     b'|' => 0,
-                    b'~' => 1,
-                    b'^' => 2,
-                    b'"' => 3,
-                    b'\'' => 4,
-                    b'_' => 5 + (if c.can_open { 3 } else { 0 }) + (c.length % 3),
-                    b'*' => 11 + (if c.can_open { 3 } else { 0 }) + (c.length % 3),
+                    b'~' => 6,
+                    b'^' => 12,
+                    b'"' => 18,
+                    b'\'' => 24,
+                    b'_' => 30,
+                    b'*' => 36,
                     _ => unreachable!(),
-                };
+                } + (if c.can_open { 3 } else { 0 })
+                    + (c.length % 3);
 
                 // Here's where we find the opener by searching down the stack,
                 // looking for matching delims with the `can_open` flag.
@@ -480,8 +484,6 @@ impl<'a, 'r, 'o, 'd, 'i, 'c> Subject<'a, 'r, 'o, 'd, 'i, 'c> {
                         if !odd_match {
                             opener_found = true;
                             break;
-                        } else {
-                            mod_three_rule_invoked = true;
                         }
                     }
                     opener = o.prev.get();
@@ -549,13 +551,7 @@ impl<'a, 'r, 'o, 'd, 'i, 'c> Subject<'a, 'r, 'o, 'd, 'i, 'c> {
                 // so that the `opener` search can avoid looking for this
                 // same opener at the bottom of the stack later.
                 if !opener_found {
-                    // For `*` and `_`, `ix` separates closers by `can_open` and
-                    // `length % 3`, which is all the rule of three looks at on
-                    // the closer's side: an opener skipped for this closer is
-                    // skipped for every later closer of the same class too.
-                    if !mod_three_rule_invoked || matches!(old_c.delim_char, b'*' | b'_') {
-                        openers_bottom[ix] = old_c.position;
-                    }
+                    openers_bottom[ix] = old_c.position;
 
                     // Now that we've failed the `opener` search starting from
                     // `old_closer`, future opener searches will be searching it
